@@ -196,6 +196,13 @@ class IncrementalOptimizer(OptBase):
             h = IncrementalLoop(self.props)
             h.names = self._spec().state
             loopcut.ACTIVE[KEY] = h
+        printed = []
+        B = ps.__dict__.get("__builtins__")
+        old_print = None
+        if P.symbolic and isinstance(B, dict):
+            # what the optimiser prints is its own account of why it stopped ("Found optimum ...")
+            old_print = B.get("print")
+            B["print"] = lambda *a, **k: printed.append(" ".join(str(x) for x in a))
         try:
             solver.initialize()
             base = list(asserted(solver))
@@ -204,7 +211,9 @@ class IncrementalOptimizer(OptBase):
             result = solver._solve_optimize_incremental(variable, max_iter=solver.max_iter, kind=kind)
         finally:
             loopcut.ACTIVE.pop(KEY, None)
-        return dict(pb=pb, obj=obj, solver=solver, result=result, base=base, variable=variable, kind=kind, handler=h)
+            if old_print is not None:
+                B["print"] = old_print
+        return dict(pb=pb, obj=obj, solver=solver, result=result, base=base, variable=variable, kind=kind, handler=h, printed=printed)
 
     def clauses(self, P, ctx, case):
         solver, result, base, variable, kind = ctx["solver"], ctx["result"], ctx["base"], ctx["variable"], ctx["kind"]
@@ -241,19 +250,23 @@ class IncrementalOptimizer(OptBase):
             val = m.value(variable)
             if info["case"] == "B":
                 out.append(Clause("post[no worse than any value found before]", no_worse(kind, val, info["F"]), props=("C07",), kind="sound"))
-            if G.last == z3.unsat:
-                # optimality: instantiate the unsat answer at an arbitrary assignment x
+            announced = any("Found optimum" in line for line in ctx["printed"])
+            stopped_early = any(("Max time" in line) for line in ctx["printed"]) or any(e[0] == "warn" for e in getattr(ctx["handler"], "events", []))
+            if G.last == z3.unsat or announced:
+                # the optimiser was allowed to finish (it ended on unsat, or announces "Found optimum"): the
+                # result must be a best value.  Hypotheses: the unsat answer instantiated at an arbitrary
+                # assignment x, and LB: the indicator's declared bounds really bound it.
                 X = ghost.GhostModel(G, 9000 + next(ghost._model_counter), base)
-                fact = Not(And(*[X.rename(f) for f in G.unsat_facts[-1]]))
+                hyps = []
+                if G.last == z3.unsat:
+                    hyps.append(Not(And(*[X.rename(f) for f in G.unsat_facts[-1]])))
+                bounds = solver._objective._bounds
+                if bounds is not None:
+                    lo, hi = bounds
+                    vx = X.value(variable)
+                    hyps.append(Implies(And(*[X.rename(f) for f in base]), And(T(lo) <= vx, vx <= T(hi))))
                 goal = Implies(And(*[X.rename(f) for f in base]), no_worse(kind, val, X.value(variable)))
-                out.append(Clause("post[optimal when the loop ends on unsat]", goal, hyps=[fact], props=("C07",), kind="sound"))
-            bounds = solver._objective._bounds
-            if bounds is not None and G.last == z3.sat:
-                bound = bounds[0] if kind == "min" else bounds[1]
-                X = ghost.GhostModel(G, 9000 + next(ghost._model_counter), base)
-                lb = Implies(And(*[X.rename(f) for f in base]), no_worse(kind, T(bound), X.value(variable)))
-                goal = Implies(And(*[X.rename(f) for f in base]), no_worse(kind, val, X.value(variable)))
-                out.append(Clause("post[optimal when the declared bound is reached]", Implies(val == T(bound), goal), hyps=[lb], props=("C07",), kind="sound"))
+                out.append(Clause("post[when the optimiser finishes (unsat, or 'Found optimum') the result is optimal]", goal, hyps=hyps, props=("C07",), kind="sound"))
         # C13: whatever the exit, the loop leaves the stack as it found it
         out.append(Clause("frame[scopes pushed by the loop are popped: stack == Base]", And(z3.BoolVal(len(G.frames) == info["base_len"]), sym._term(G.pushed_count()) == 0), props=("C13",), kind="frame"))
         return out
@@ -263,3 +276,63 @@ class IncrementalOptimizer(OptBase):
             return []
         m = ctx["result"]
         return [Clause("sentinel[objective value is 0]", m.value(ctx["variable"]) == 0, props=("C07", "C13", "C15"), kind="sound")]
+
+
+def _incremental_native_search(case, params, ob):
+    """real library: run the incremental optimiser to the end on a small family of instances of this case
+    and compare with the true optimum of the same constraint system (computed by z3.Optimize on Base)"""
+    import io, contextlib, warnings
+    from psvc import runner
+    from psvc.contract import Params
+
+    ps = runner.native_ps()
+    con = IncrementalOptimizer()
+    tried = 0
+    for H in (3, 4, 6):
+        for d1 in (1, 2):
+            for lb, ub in ((0, 0), (0, 3), (0, 5), (0, 8), (1, 9), (0, 12)):
+                vals = dict(H=H, d1=d1, lb=lb, ub=ub, max_iter=1000)
+                import processscheduler.base as base
+
+                base.active_problem = None
+                P = Params(vals)
+                with contextlib.redirect_stdout(io.StringIO()), warnings.catch_warnings():
+                    warnings.simplefilter("ignore")
+                    try:
+                        pb, obj, _ = con.build(ps, P, case)
+                        solver = ps.SchedulingSolver(problem=pb)
+                        solver.initialize()
+                        B = list(solver._solver.assertions())
+                        variable = solver._objective._target
+                        kind = "min" if solver._objective.kind == "minimize" else "max"
+                        res = solver._solve_optimize_incremental(variable, kind=kind)
+                    except Exception:  # noqa
+                        continue
+                tried += 1
+                o = z3.Optimize()
+                o.add(*B)
+                bounds = solver._objective._bounds
+                if bounds is not None:
+                    # only instances on which the declared bounds are true bounds
+                    s = z3.Solver()
+                    s.add(*B)
+                    s.add(z3.Or(variable < bounds[0], variable > bounds[1]))
+                    if s.check() != z3.unsat:
+                        continue
+                h = o.minimize(variable) if kind == "min" else o.maximize(variable)
+                if o.check() != z3.sat:
+                    if res is not False:
+                        return {"confirmed": True, "observation": {"params": vals, "incremental": "a model", "truth": "infeasible"}}
+                    continue
+                best = o.model()[variable].as_long()
+                if res is False:
+                    return {"confirmed": True, "observation": {"params": vals, "incremental": False, "true_optimum": best}}
+                got = res[variable].as_long()
+                if got != best:
+                    return {"confirmed": True, "observation": {"params": vals, "incremental_result": got, "true_optimum": best, "declared_bounds": list(bounds) if bounds else None}}
+                if case["obj"] != "indicator_min_bounded":
+                    break
+    return {"confirmed": False, "observation": {"instances_tried": tried}}
+
+
+IncrementalOptimizer.native_search = staticmethod(_incremental_native_search)
